@@ -91,7 +91,9 @@ ASSUMPTIONS = [
     "model driver evaluates (op fuel_ok) before every section / source deletion of the correspondence runs; "
     "subtree_finite_of_growing proves the finite-forest half of the hypothesis (and that the visited-set-free "
     "collection loop ends, complete) from the decidable condition that every child key exceeds its parent's "
-    "(GrowingKids: objects are keyed in creation order) - the bound on the count remains a hypothesis",
+    "(GrowingKids over the sections / sources themselves: objects are keyed in creation order; the model driver "
+    "evaluates it, op growing_ok, before every section / source deletion of the correspondence runs) - the bound on "
+    "the count remains a hypothesis",
     "deletion is by HDF5 object (fix 'deleting an entity also deleted every same-id copy file-wide'): h5py's `==` / "
     "`in` on Group / Dataset objects is object identity in the file (same file number and address) - modelled as "
     "equality of node keys; the frame at full strength (frame_full, delete_frame, delete_exact) is proved for "
@@ -163,7 +165,7 @@ def extract(repo):
     return _ex.extract(repo)
 
 
-QUERIES = ("get", "has", "len", "list", "role", "dump", "noop", "reset", "fuel_ok")
+QUERIES = ("get", "has", "len", "list", "role", "dump", "noop", "reset", "fuel_ok", "growing_ok")
 
 
 # =======================================================================================
@@ -569,6 +571,10 @@ class DelGen(storegen.Gen):
             # model-only question: does the breadth-first id collection finish within the model's fuel? (hypothesis
             # of Nix.C04.subtree_complete_of_done; on the implementation find_sections/find_sources simply terminate)
             self.ops.append(["fuel_ok", owner_path, cname, key])
+            self.outs.append({"ok": True})
+            # ... and is the hierarchy of the model's graph a finite forest by the decidable criterion of
+            # Nix.C04.subtree_finite_of_growing (every child section / source keyed above its parent, below the next key)?
+            self.ops.append(["growing_ok"])
             self.outs.append({"ok": True})
         self.do(["del", owner_path, cname, key])
         self.do(["list", owner_path, cname])
